@@ -31,6 +31,7 @@ func (w *Offset) Wait(ctx context.Context, offset int64) error {
 	if w.nextOffset.Load() > offset {
 		return nil
 	}
+	verifhook.Pause("wait.fast")
 
 	// acquire current barrier
 	b, ok := <-w.barrier
